@@ -113,8 +113,8 @@ def lf_check(case):
                 shape, fs, typ = tuple(sr.shape), sr.fs, sr.type
                 nsavedmeta = int(sr.meta["nSavedChans"])
                 aplf = [int(x) for x in sr.meta["snsApLfSy"]]
-                back = np.array(sr._raw[:, :])
                 sr.close()
+                back = np2.read_raw(f, shape[1])
                 if shape != (nlf, ncol) or not np.array_equal(back, lf):
                     seen.setdefault("lf:reader-shape", "%s: LF file opens with shape %r, its content is %r" % (ctx, shape, (nlf, ncol)))
                 if float(fs) != 2500.0 or typ != "lf":
@@ -209,8 +209,9 @@ def rerun_check(case):
         for sh, stem in lf_files().items():
             f = stem + (".cbin" if (compress and os.path.exists(stem + ".cbin") and not os.path.exists(stem + ".bin")) else ".bin")
             sr = spikeglx.Reader(f, sort=False)
-            res[sh] = (tuple(sr.shape), np.array(sr._raw[0:sr.ns]) if f.endswith("cbin") else np.array(sr._raw[:, :]), os.path.getsize(f) if f.endswith(".bin") else None)
+            shp = tuple(sr.shape)
             sr.close()
+            res[sh] = (shp, np2.read_raw(f, shp[1]), os.path.getsize(f) if f.endswith(".bin") else None)
         return res
     try:
         target = ap
